@@ -559,12 +559,15 @@ Section XMachine.
         match g_todo s t with
         | [] => None
         | o :: rest =>
+            (* the invocation: the thread now stands before the first primitive of the call ... *)
             let s1 := {| g_tabs := g_tabs s; g_cur := g_cur s; g_resizing := g_resizing s; g_rmu := g_rmu s;
-                         g_growths := g_growths s; g_shrinks := g_shrinks s; g_pc := g_pc s;
+                         g_growths := g_growths s; g_shrinks := g_shrinks s;
+                         g_pc := fun t' => if Nat.eq_dec t' t then start_pc o else g_pc s t';
                          g_todo := fun t' => if Nat.eq_dec t' t then rest else g_todo s t' |} in
+            (* ... and executes it, unless it blocks there *)
             match step_pc s1 t (start_pc o) with
             | Some (s2, ls) => Some (s2, XInv t o :: ls)
-            | None => Some (set_pc s1 t (start_pc o), [XInv t o])     (* blocked at its first primitive *)
+            | None => Some (s1, [XInv t o])
             end
         end
     | p => step_pc s t p
